@@ -551,6 +551,8 @@ def register_pretty(type=None, predicate=None):
                 # class, we can call register_pretty(cls)(fn)
                 _DEFERRED_DISPATCH_BY_NAME[type] = fn
             else:
+                # A direct registration supersedes a pending deferred one.
+                _DEFERRED_DISPATCH_BY_NAME.pop(get_deferred_key(type), None)
                 pretty_dispatch.register(type, partial(_run_pretty, fn))
         else:
             assert callable(predicate)
@@ -571,11 +573,9 @@ def is_registered(
             'register_deferred may not be True when check_deferred is False'
         )
 
-    if type in pretty_dispatch.registry:
-        return True
-
     if check_deferred:
-        # Check deferred printers for the type exactly.
+        # Check deferred printers for the type exactly. A pending deferred
+        # printer was registered after any direct one for the same type.
         deferred_key = get_deferred_key(type)
         if deferred_key in _DEFERRED_DISPATCH_BY_NAME:
             if register_deferred:
@@ -584,6 +584,9 @@ def is_registered(
                 )
                 register_pretty(type)(deferred_dispatch)
             return True
+
+    if type in pretty_dispatch.registry:
+        return True
 
     if not check_superclasses:
         return False
